@@ -3,7 +3,7 @@
    This file (and only this file) depends on the standard library's axioms for the real numbers. *)
 From Coq Require Import ZArith List Bool Lia Reals Lra Field.
 From Coquelicot Require Import Coquelicot.
-From PS Require Import Arith EvalModel BSpline OFieldKit C01_Basis C02_Basis C02_Analytic.
+From PS Require Import Arith EvalModel BSpline OFieldKit C01_Basis C02_Basis C02_Analytic C02_AnalyticRep.
 Import ListNotations.
 Local Open Scope R_scope.
 
@@ -104,3 +104,130 @@ Proof.
 Qed.
 
 End Real.
+
+(* ---------------------------------------------------------------------------------------------- *)
+(* The same for NON-DECREASING knots (repeated knots allowed), with the dropped-term convention of BSpline.wdiv. *)
+Section RealRep.
+Variable kn : Z -> R.
+Variable nknots : Z.
+Hypothesis Hmono : forall i j, (0 <= i)%Z -> (i <= j)%Z -> (j < nknots)%Z -> kn i <= kn j.
+Variable l : Z.
+
+Notation wd := (@wdiv RA).
+Notation BqR := (@Bq RA kn l).
+Notation DqR := (@Dq RA kn l).
+
+(* d/dx [ w(x) P(x) ] for the weight w(x) = (x - a)/d, or identically 0 when d = 0 *)
+Lemma wterm1 a d (P : R -> R) P' x : is_derive P x P' ->
+  is_derive (fun x : R => wd (x - a) d * P x) x (wd (P x) d + wd (x - a) d * P').
+Proof.
+  intros HP. destruct (Req_dec d 0) as [E|E].
+  - apply (is_derive_ext (fun _ : R => 0)).
+    + intro t. rewrite (wdiv_z RA_OField (t - a) d E). cbn. ring.
+    + rewrite (wdiv_z RA_OField (P x) d E), (wdiv_z RA_OField (x - a) d E). cbn.
+      replace (0 + 0 * P') with 0 by ring. apply (is_derive_const (K := R_AbsRing) (V := R_NormedModule)).
+  - apply (is_derive_ext (fun t : R => (t - a) / d * P t)).
+    + intro t. rewrite (wdiv_nz RA_OField (t - a) d E). reflexivity.
+    + rewrite (wdiv_nz RA_OField (P x) d E), (wdiv_nz RA_OField (x - a) d E). cbn.
+      replace (P x / d + (x - a) / d * P') with (1 / d * P x + (x - a) / d * P') by (unfold Rdiv; ring).
+      apply (is_derive_mult (fun x : R => (x - a) / d) P x (1 / d) P'); [apply affine1|exact HP|exact Rmult_comm].
+Qed.
+Lemma wterm2 b d (P : R -> R) P' x : is_derive P x P' ->
+  is_derive (fun x : R => wd (b - x) d * P x) x (- wd (P x) d + wd (b - x) d * P').
+Proof.
+  intros HP. destruct (Req_dec d 0) as [E|E].
+  - apply (is_derive_ext (fun _ : R => 0)).
+    + intro t. rewrite (wdiv_z RA_OField (b - t) d E). cbn. ring.
+    + rewrite (wdiv_z RA_OField (P x) d E), (wdiv_z RA_OField (b - x) d E). cbn.
+      replace (- 0 + 0 * P') with 0 by ring. apply (is_derive_const (K := R_AbsRing) (V := R_NormedModule)).
+  - apply (is_derive_ext (fun t : R => (b - t) / d * P t)).
+    + intro t. rewrite (wdiv_nz RA_OField (b - t) d E). reflexivity.
+    + rewrite (wdiv_nz RA_OField (P x) d E), (wdiv_nz RA_OField (b - x) d E). cbn.
+      replace (- (P x / d) + (b - x) / d * P') with (- (1 / d) * P x + (b - x) / d * P') by (unfold Rdiv; ring).
+      apply (is_derive_mult (fun x : R => (b - x) / d) P x (- (1 / d)) P'); [apply affine2|exact HP|exact Rmult_comm].
+Qed.
+
+Theorem Dq_is_derivative : forall n i x, is_derive (fun x : R => BqR n i x) x (DqR n i x).
+Proof.
+  induction n as [|n IH]; intros i x.
+  - cbn [Bq Dq]. apply (is_derive_const (K := R_AbsRing) (V := R_NormedModule)).
+  - change (BqR (S n) i) with
+      (fun x : R => wd (x - kn i) (kn (i + Z.of_nat (S n)) - kn i) * BqR n i x +
+                    wd (kn (i + Z.of_nat (S n) + 1) - x) (kn (i + Z.of_nat (S n) + 1) - kn (i + 1)) * BqR n (i + 1) x).
+    change (DqR (S n) i x) with
+      ((wd (BqR n i x) (kn (i + Z.of_nat (S n)) - kn i) + wd (x - kn i) (kn (i + Z.of_nat (S n)) - kn i) * DqR n i x) +
+       (- wd (BqR n (i + 1) x) (kn (i + Z.of_nat (S n) + 1) - kn (i + 1)) +
+        wd (kn (i + Z.of_nat (S n) + 1) - x) (kn (i + Z.of_nat (S n) + 1) - kn (i + 1)) * DqR n (i + 1) x)).
+    apply (is_derive_plus (K := R_AbsRing) (V := R_NormedModule)
+             (fun x : R => wd (x - kn i) (kn (i + Z.of_nat (S n)) - kn i) * BqR n i x)
+             (fun x : R => wd (kn (i + Z.of_nat (S n) + 1) - x) (kn (i + Z.of_nat (S n) + 1) - kn (i + 1)) * BqR n (i + 1) x)).
+    + apply (wterm1 (kn i) _ (fun x : R => BqR n i x) (DqR n i x) x). apply IH.
+    + apply (wterm2 (kn (i + Z.of_nat (S n) + 1)) _ (fun x : R => BqR n (i + 1) x) (DqR n (i + 1) x) x). apply IH.
+Qed.
+
+Hypothesis Hl0 : (0 <= l)%Z.
+Hypothesis Hl1 : (l + 1 < nknots)%Z.
+
+Lemma monoA : forall i j, (0 <= i)%Z -> (i <= j)%Z -> (j < nknots)%Z -> @OFieldKit.le RA (kn i) (kn j).
+Proof. intros i j H1 H2 H3. apply R_leb_le. apply Hmono; assumption. Qed.
+
+(* at a point strictly inside a knot interval (which then has positive width), for non-decreasing knots *)
+Theorem dB_is_the_derivative_rep : forall n i x0, (0 <= i)%Z -> (i + Z.of_nat n + 1 < nknots)%Z ->
+  kn l < x0 < kn (l + 1) ->
+  is_derive (fun x : R => @Bfun RA kn true n i x) x0 (@dBfun RA kn true 1 n i x0).
+Proof.
+  intros n i x0 Hi0 Hi1 [Hx1 Hx2].
+  assert (Hpos : @OFieldKit.lt RA (kn l) (kn (l + 1))) by (apply R_ltb_lt; lra).
+  assert (Hp0 : @in_piece RA kn true l x0).
+  { cbn [in_piece]. split; [apply R_leb_le; lra|apply R_ltb_lt; exact Hx2]. }
+  rewrite (dB1_is_Dq RA_OField eq_refl (fun z _ => plus_IZR z 1) kn nknots monoA l Hl0 Hl1 Hpos true x0 Hp0 n i Hi0 Hi1).
+  apply (is_derive_ext_loc (fun x : R => BqR n i x)).
+  - assert (He : 0 < Rmin (x0 - kn l) (kn (l + 1) - x0)) by (apply Rmin_pos; lra).
+    exists (mkposreal _ He). intros y Hy. cbn [pos] in Hy.
+    unfold ball in Hy; cbn in Hy. unfold AbsRing_ball, abs, minus, plus, opp in Hy; cbn in Hy.
+    assert (Hy' : Rabs (y - x0) < Rmin (x0 - kn l) (kn (l + 1) - x0)) by exact Hy.
+    pose proof (Rmin_l (x0 - kn l) (kn (l + 1) - x0)). pose proof (Rmin_r (x0 - kn l) (kn (l + 1) - x0)).
+    apply Rabs_def2 in Hy'. destruct Hy' as [Hy1 Hy2].
+    symmetry. apply (Bfun_is_Bq RA_OField kn nknots monoA l Hl0 Hl1 true y); try assumption.
+    cbn [in_piece]. split; [apply R_leb_le; lra|apply R_ltb_lt; lra].
+  - apply Dq_is_derivative.
+Qed.
+
+(* every further order: the (k+1)-st formula is the derivative of the k-th (the formula is a fixed linear combination
+   of lower-order formulas, u |-> wdiv u d is linear) — so dBfun k is the k-th derivative of the Cox–de Boor function *)
+Lemma wlin d (P : R -> R) P' x : is_derive P x P' -> is_derive (fun x : R => wd (P x) d) x (wd P' d).
+Proof.
+  intros HP. destruct (Req_dec d 0) as [E|E].
+  - apply (is_derive_ext (fun _ : R => 0)); [intro t; rewrite (wdiv_z RA_OField (P t) d E); reflexivity|].
+    rewrite (wdiv_z RA_OField P' d E). apply (is_derive_const (K := R_AbsRing) (V := R_NormedModule)).
+  - apply (is_derive_ext (fun t : R => / d * P t)); [intro t; rewrite (wdiv_nz RA_OField (P t) d E); cbn; unfold Rdiv; ring|].
+    rewrite (wdiv_nz RA_OField P' d E). cbn. replace (P' / d) with (/ d * P') by (unfold Rdiv; ring).
+    apply (is_derive_scal P x (/ d) P'). exact HP.
+Qed.
+
+Theorem dBk_is_the_derivative : forall k n i x0, (0 <= i)%Z -> (i + Z.of_nat n + 1 < nknots)%Z ->
+  kn l < x0 < kn (l + 1) ->
+  is_derive (fun x : R => @dBfun RA kn true k n i x) x0 (@dBfun RA kn true (S k) n i x0).
+Proof.
+  induction k as [|k IH]; intros n i x0 Hi0 Hi1 Hx.
+  - apply dB_is_the_derivative_rep; assumption.
+  - destruct n as [|n].
+    + cbn [dBfun]. apply (is_derive_const (K := R_AbsRing) (V := R_NormedModule)).
+    + change (fun x : R => @dBfun RA kn true (S k) (S n) i x) with
+        (fun x : R => IZR (Z.of_nat (S n)) *
+           (wd (@dBfun RA kn true k n i x) (kn (i + Z.of_nat (S n)) - kn i) -
+            wd (@dBfun RA kn true k n (i + 1) x) (kn (i + Z.of_nat (S n) + 1) - kn (i + 1)))).
+      change (@dBfun RA kn true (S (S k)) (S n) i x0) with
+        (IZR (Z.of_nat (S n)) *
+           (wd (@dBfun RA kn true (S k) n i x0) (kn (i + Z.of_nat (S n)) - kn i) -
+            wd (@dBfun RA kn true (S k) n (i + 1) x0) (kn (i + Z.of_nat (S n) + 1) - kn (i + 1)))).
+      apply (is_derive_scal (fun x : R => wd (@dBfun RA kn true k n i x) (kn (i + Z.of_nat (S n)) - kn i) -
+                                           wd (@dBfun RA kn true k n (i + 1) x) (kn (i + Z.of_nat (S n) + 1) - kn (i + 1)))).
+      apply (is_derive_minus (K := R_AbsRing) (V := R_NormedModule)
+               (fun x : R => wd (@dBfun RA kn true k n i x) (kn (i + Z.of_nat (S n)) - kn i))
+               (fun x : R => wd (@dBfun RA kn true k n (i + 1) x) (kn (i + Z.of_nat (S n) + 1) - kn (i + 1)))).
+      * apply (wlin _ (fun x : R => @dBfun RA kn true k n i x)). apply IH; try assumption; lia.
+      * apply (wlin _ (fun x : R => @dBfun RA kn true k n (i + 1) x)). apply IH; try assumption; lia.
+Qed.
+
+End RealRep.
